@@ -111,66 +111,71 @@ pub fn space(i: u8) -> OpRegionSpace {
 /// Execute the program on the real crate: every node is built with the crate's constructor and
 /// serialised by the crate's serialiser (children are handed over pre-serialised).
 pub fn real(t: &T) -> Vec<u8> {
+    real_with(t, &mut |a| ser(a))
+}
+
+/// Execute the program on the real crate and hand the *root object* to `k` (C14 serialises it into several sinks).
+pub fn real_with<R>(t: &T, kk: &mut dyn FnMut(&dyn Aml) -> R) -> R {
     match t {
-        T::Zero => ser(&ZERO),
-        T::One => ser(&ONE),
-        T::Ones => ser(&ONES),
+        T::Zero => kk(&ZERO),
+        T::One => kk(&ONE),
+        T::Ones => kk(&ONES),
         T::Int(v, c) => match c {
-            Carrier::U8 => ser(&(*v as u8)),
-            Carrier::U16 => ser(&(*v as u16)),
-            Carrier::U32 => ser(&(*v as u32)),
-            Carrier::U64 => ser(v),
-            Carrier::Usize => ser(&(*v as usize)),
+            Carrier::U8 => kk(&(*v as u8)),
+            Carrier::U16 => kk(&(*v as u16)),
+            Carrier::U32 => kk(&(*v as u32)),
+            Carrier::U64 => kk(v),
+            Carrier::Usize => kk(&(*v as usize)),
         },
         T::Str(s, owned) => {
             if *owned {
-                ser(&s.clone())
+                kk(&s.clone())
             } else {
                 let st: &'static str = Box::leak(s.clone().into_boxed_str());
-                ser(&st)
+                kk(&st)
             }
         }
-        T::Path(p) => ser(&Path::new(p)),
-        T::FieldName(s) => ser(&Name::new_field_name(s)),
-        T::Name(p, inner) => ser(&Name::new(Path::new(p), &Raw(real(inner)))),
+        T::Path(p) => kk(&Path::new(p)),
+        T::FieldName(s) => kk(&Name::new_field_name(s)),
+        T::Name(p, inner) => kk(&Name::new(Path::new(p), &Raw(real(inner)))),
         T::Package(cs) => {
             let r = raws(cs);
-            ser(&Package::new(refs(&r)))
+            kk(&Package::new(refs(&r)))
         }
         T::PackageBuilder(cs) => {
             let mut b = PackageBuilder::new();
             for c in cs {
                 b.add_element(&Raw(real(c)));
             }
-            ser(&b)
+            kk(&b)
         }
-        T::VarPackage(c) => ser(&VarPackageTerm::new(&Raw(real(c)))),
-        T::Eisa(s) => ser(&EISAName::new(s)),
-        T::Uuid(s) => ser(&Uuid::new(s)),
-        T::BufferTerm(c) => ser(&BufferTerm::new(&Raw(real(c)))),
-        T::BufferData(d) => ser(&BufferData::new(d.clone())),
+        T::VarPackage(c) => kk(&VarPackageTerm::new(&Raw(real(c)))),
+        T::Eisa(s) => kk(&EISAName::new(s)),
+        T::Uuid(s) => kk(&Uuid::new(s)),
+        T::BufferTerm(c) => kk(&BufferTerm::new(&Raw(real(c)))),
+        T::BufferData(d) => kk(&BufferData::new(d.clone())),
         T::ResTemplate(rs) => {
             let r: Vec<Raw> = rs.iter().map(|x| Raw(x.real())).collect();
-            ser(&ResourceTemplate::new(refs(&r)))
+            kk(&ResourceTemplate::new(refs(&r)))
         }
         T::Device(p, cs) => {
             let r = raws(cs);
-            ser(&Device::new(Path::new(p), refs(&r)))
+            kk(&Device::new(Path::new(p), refs(&r)))
         }
         T::Scope(p, cs) => {
             let r = raws(cs);
-            ser(&Scope::new(Path::new(p), refs(&r)))
+            kk(&Scope::new(Path::new(p), refs(&r)))
         }
         T::ScopeRaw(p, cs) => {
             let mut body = vec![];
             for c in cs {
                 body.extend(real(c));
             }
-            Scope::raw(Path::new(p), body)
+            kk(&Raw(Scope::raw(Path::new(p), body)))
         }
         T::Method(p, args, serialized, cs) => {
             let r = raws(cs);
-            ser(&Method::new(Path::new(p), *args, *serialized, refs(&r)))
+            kk(&Method::new(Path::new(p), *args, *serialized, refs(&r)))
         }
         T::Field(p, a, l, u, es) => {
             let lock = [FieldLockRule::NoLock, FieldLockRule::Lock][*l as usize];
@@ -182,87 +187,87 @@ pub fn real(t: &T) -> Vec<u8> {
                     None => FieldEntry::Reserved(*w),
                 })
                 .collect();
-            ser(&Field::new(Path::new(p), access(*a), lock, upd, entries))
+            kk(&Field::new(Path::new(p), access(*a), lock, upd, entries))
         }
-        T::OpRegion(p, sp, o, l) => ser(&OpRegion::new(Path::new(p), space(*sp), &Raw(real(o)), &Raw(real(l)))),
+        T::OpRegion(p, sp, o, l) => kk(&OpRegion::new(Path::new(p), space(*sp), &Raw(real(o)), &Raw(real(l)))),
         T::If(p, cs) => {
             let r = raws(cs);
-            ser(&If::new(&Raw(real(p)), refs(&r)))
+            kk(&If::new(&Raw(real(p)), refs(&r)))
         }
         T::Else(cs) => {
             let r = raws(cs);
-            ser(&Else::new(refs(&r)))
+            kk(&Else::new(refs(&r)))
         }
         T::While(p, cs) => {
             let r = raws(cs);
-            ser(&While::new(&Raw(real(p)), refs(&r)))
+            kk(&While::new(&Raw(real(p)), refs(&r)))
         }
         T::Cmp(k, l, r) => {
             let (l, r) = (Raw(real(l)), Raw(real(r)));
             match k {
-                0 => ser(&Equal::new(&l, &r)),
-                1 => ser(&LessThan::new(&l, &r)),
-                2 => ser(&GreaterThan::new(&l, &r)),
-                3 => ser(&NotEqual::new(&l, &r)),
-                4 => ser(&GreaterEqual::new(&l, &r)),
-                _ => ser(&LessEqual::new(&l, &r)),
+                0 => kk(&Equal::new(&l, &r)),
+                1 => kk(&LessThan::new(&l, &r)),
+                2 => kk(&GreaterThan::new(&l, &r)),
+                3 => kk(&NotEqual::new(&l, &r)),
+                4 => kk(&GreaterEqual::new(&l, &r)),
+                _ => kk(&LessEqual::new(&l, &r)),
             }
         }
-        T::Arg(i) => ser(&Arg(*i)),
-        T::Local(i) => ser(&Local(*i)),
-        T::Store(n, v) => ser(&Store::new(&Raw(real(n)), &Raw(real(v)))),
-        T::Mutex(p, l) => ser(&Mutex::new(Path::new(p), *l)),
-        T::Acquire(p, t) => ser(&Acquire::new(Path::new(p), *t)),
-        T::Release(p) => ser(&Release::new(Path::new(p))),
-        T::Notify(o, v) => ser(&Notify::new(&Raw(real(o)), &Raw(real(v)))),
+        T::Arg(i) => kk(&Arg(*i)),
+        T::Local(i) => kk(&Local(*i)),
+        T::Store(n, v) => kk(&Store::new(&Raw(real(n)), &Raw(real(v)))),
+        T::Mutex(p, l) => kk(&Mutex::new(Path::new(p), *l)),
+        T::Acquire(p, t) => kk(&Acquire::new(Path::new(p), *t)),
+        T::Release(p) => kk(&Release::new(Path::new(p))),
+        T::Notify(o, v) => kk(&Notify::new(&Raw(real(o)), &Raw(real(v)))),
         T::Unary(k, a) => {
             let a = Raw(real(a));
             match k {
-                0 => ser(&ObjectType::new(&a)),
-                1 => ser(&SizeOf::new(&a)),
-                2 => ser(&Return::new(&a)),
-                _ => ser(&DeRefOf::new(&a)),
+                0 => kk(&ObjectType::new(&a)),
+                1 => kk(&SizeOf::new(&a)),
+                2 => kk(&Return::new(&a)),
+                _ => kk(&DeRefOf::new(&a)),
             }
         }
         T::Binary(k, t, a, b) => {
             let (t, a, b) = (Raw(real(t)), Raw(real(a)), Raw(real(b)));
             match k {
-                0 => ser(&Add::new(&t, &a, &b)),
-                1 => ser(&Concat::new(&t, &a, &b)),
-                2 => ser(&Subtract::new(&t, &a, &b)),
-                3 => ser(&Multiply::new(&t, &a, &b)),
-                4 => ser(&ShiftLeft::new(&t, &a, &b)),
-                5 => ser(&ShiftRight::new(&t, &a, &b)),
-                6 => ser(&And::new(&t, &a, &b)),
-                7 => ser(&Nand::new(&t, &a, &b)),
-                8 => ser(&Or::new(&t, &a, &b)),
-                9 => ser(&Nor::new(&t, &a, &b)),
-                10 => ser(&Xor::new(&t, &a, &b)),
-                11 => ser(&ConcatRes::new(&t, &a, &b)),
-                12 => ser(&Mod::new(&t, &a, &b)),
-                13 => ser(&Index::new(&t, &a, &b)),
-                14 => ser(&ToString::new(&t, &a, &b)),
-                15 => ser(&CreateDWordField::new(&t, &a, &b)),
-                _ => ser(&CreateQWordField::new(&t, &a, &b)),
+                0 => kk(&Add::new(&t, &a, &b)),
+                1 => kk(&Concat::new(&t, &a, &b)),
+                2 => kk(&Subtract::new(&t, &a, &b)),
+                3 => kk(&Multiply::new(&t, &a, &b)),
+                4 => kk(&ShiftLeft::new(&t, &a, &b)),
+                5 => kk(&ShiftRight::new(&t, &a, &b)),
+                6 => kk(&And::new(&t, &a, &b)),
+                7 => kk(&Nand::new(&t, &a, &b)),
+                8 => kk(&Or::new(&t, &a, &b)),
+                9 => kk(&Nor::new(&t, &a, &b)),
+                10 => kk(&Xor::new(&t, &a, &b)),
+                11 => kk(&ConcatRes::new(&t, &a, &b)),
+                12 => kk(&Mod::new(&t, &a, &b)),
+                13 => kk(&Index::new(&t, &a, &b)),
+                14 => kk(&ToString::new(&t, &a, &b)),
+                15 => kk(&CreateDWordField::new(&t, &a, &b)),
+                _ => kk(&CreateQWordField::new(&t, &a, &b)),
             }
         }
         T::Convert(k, t, a) => {
             let (t, a) = (Raw(real(t)), Raw(real(a)));
             if *k == 0 {
-                ser(&ToBuffer::new(&t, &a))
+                kk(&ToBuffer::new(&t, &a))
             } else {
-                ser(&ToInteger::new(&t, &a))
+                kk(&ToInteger::new(&t, &a))
             }
         }
-        T::CreateField(n, s, bi, bn) => ser(&CreateField::new(&Raw(real(n)), &Raw(real(s)), &Raw(real(bi)), &Raw(real(bn)))),
-        T::Mid(s, i, l, r) => ser(&Mid::new(&Raw(real(s)), &Raw(real(i)), &Raw(real(l)), &Raw(real(r)))),
+        T::CreateField(n, s, bi, bn) => kk(&CreateField::new(&Raw(real(n)), &Raw(real(s)), &Raw(real(bi)), &Raw(real(bn)))),
+        T::Mid(s, i, l, r) => kk(&Mid::new(&Raw(real(s)), &Raw(real(i)), &Raw(real(l)), &Raw(real(r)))),
         T::MethodCall(p, args) => {
             let r = raws(args);
-            ser(&MethodCall::new(Path::new(p), refs(&r)))
+            kk(&MethodCall::new(Path::new(p), refs(&r)))
         }
         T::PowerResource(p, l, o, cs) => {
             let r = raws(cs);
-            ser(&PowerResource::new(Path::new(p), *l, *o, refs(&r)))
+            kk(&PowerResource::new(Path::new(p), *l, *o, refs(&r)))
         }
     }
 }
